@@ -6,6 +6,7 @@ import Pangaea.Drv.C04
 import Pangaea.Drv.C02
 import Pangaea.Drv.C16
 import Pangaea.Drv.C17
+import Pangaea.Drv.C05
 
 def dispatch (line : String) : String :=
   let toks := (line.trimAscii.toString.splitOn " ").filter (· ≠ "")
@@ -18,6 +19,7 @@ def dispatch (line : String) : String :=
     | "C02" :: rest => Pangaea.Drv.C02.handle rest
     | "C16" :: rest => Pangaea.Drv.C16.handle rest
     | "C17" :: rest => Pangaea.Drv.C17.handle rest
+    | "C05" :: rest => Pangaea.Drv.C05.handle rest
     | _ => ("bad-op", "bad-op")
   r.1 ++ "\t" ++ r.2
 
